@@ -650,6 +650,11 @@ class Interp:
             if attr == "string":
                 self.emit("sink", "text-raw", v, node, {"via": "tag.string ="})
             return
+        if "class" in base.kinds and base.cls is not None:
+            # `ClassName.attr = ...`: the class object is shared by every instance and every later call
+            shared = base.copy(regions=[f"G:class:{getattr(base.cls, 'name', base.cls)}.{attr}"])
+            self.mutation(shared, f"class attribute store .{attr}", node, st, stored=v)
+            return
         self.mutation(base, f"attribute store .{attr}", node, st, stored=v)
 
     def store_item(self, base, key, v, st, node, target):
@@ -912,6 +917,10 @@ class Interp:
             m = l.cls.find_method(name) if name else None
             if m is not None:
                 return self.call_function(m, [r], {}, st, selfv=l, node=node)
+        if isinstance(op, (ast.Sub, ast.BitOr, ast.BitAnd, ast.BitXor)) and (l.tag == "dictview" or r.tag == "dictview"):
+            # dict views are set-like: their difference / union / intersection is a real set (hash order)
+            return AV(kinds=["set"], regions=["F"], elem=join(l.elem, r.elem) if l.elem is not None and r.elem is not None
+                      else (l.elem or r.elem), setlike=True)
         if isinstance(op, (ast.Sub, ast.BitOr, ast.BitAnd, ast.BitXor)) and ("set" in l.kinds or "set" in r.kinds) \
                 and not ("dict" in l.kinds):
             # set algebra keeps hash order
